@@ -111,6 +111,23 @@ func genTokenLines(r *gen.R, tok string, near []string) []string {
 }
 
 func classOfList(lines []string, tok string) int {
+	// whatever a parser makes of malformed lines: when no line holds the token's letters at all
+	// (ASCII case-insensitively), the token is not there
+	found := false
+	for _, l := range lines {
+		b := []byte(l)
+		for i := range b {
+			if b[i] >= 'A' && b[i] <= 'Z' {
+				b[i] += 32
+			}
+		}
+		if bytes.Contains(b, []byte(tok)) {
+			found = true
+		}
+	}
+	if !found {
+		return cInvalid
+	}
 	switch httpx.ClassifyList(lines, tok) {
 	case httpx.ListHas:
 		return cValid
@@ -394,7 +411,7 @@ func genHsReq(r *gen.R, u upCfg) *hsReq {
 	}
 	q.set("Connection", cl, classOfList(cl, "upgrade"))
 	for try := 0; try < 50; try++ {
-		ul = genTokenLines(r, "websocket", []string{"websockets", "web socket", "websocket/13", "xwebsocket", "\"websocket\"", "websocke", "websocket;v=13", "h2c"})
+		ul = genTokenLines(r, "websocket", []string{"websockets", "web socket", "websocket/13", "xwebsocket", "\"websocket\"", "websocke", "websocket;v=13", "h2c", "web\u017focket", "websoc\u212aet", "WEB\u017fOC\u212aET"})
 		if !forced(1) || classOfList(ul, "websocket") == cValid {
 			break
 		}
